@@ -207,7 +207,8 @@ Definition has_index_outside (size : nat) (ci : cindex) : bool :=
    (the approximated durations / distances themselves are never looked at by validation or by the reader's checks) *)
 Definition approx_matrices (d : xdoc) : list xmatrix :=
   let n := List.length (ci_reverse (coord_index (x_locs d))) in
-  map (fun p => mkXMatrix (mkMatrix (Some p) (repeat 0 (n * n)%nat) (repeat 0 (n * n)%nat) None) None) (x_profiles d).
+  if approx_skipped (x_profiles d) (x_speeds d) then []        (* no profile, or (X14 repair) an explicit speed that is not positive *)
+  else map (fun p => mkXMatrix (mkMatrix (Some p) (repeat 0 (n * n)%nat) (repeat 0 (n * n)%nat) None) None) (x_profiles d).
 (* map_to_problem_with_matrices: the supplied ones; map_to_problem_with_approx: none with an index location, else approximated *)
 Definition seen_matrices (d : xdoc) : list xmatrix :=
   match x_matrices d with
